@@ -447,6 +447,20 @@ def r4(tree, rep):
     g = build(ge)
     rs = [x for x in g.nodes(lambda s: isinstance(s, ast.Raise))]
     exp = params(ge)[1]
+    # what a match consumes: exactly the expected bytes (whatever follows in the same segment stays in the buffer)
+    from ..astutil import resolve_local as _rl
+    cons = [n for n in ast.walk(ge) if isinstance(n, ast.Assign) and any(is_self_attr(t, "_buffer") for t in n.targets)]
+    okc = len(cons) >= 1
+    for a in cons:
+        sb = slice_bounds(a.value)
+        lo = sb[1] if sb else None
+        if isinstance(lo, ast.Name):
+            lo = _rl(ge, lo)
+        okc = okc and sb is not None and is_self_attr(sb[0], "_buffer") and sb[2] is None and isinstance(lo, ast.Call) and dotted(lo.func) == "len" \
+            and len(lo.args) == 1 and isinstance(lo.args[0], ast.Name) and lo.args[0].id == exp
+    rep.check("C12.R4", "_get_expected consumes exactly len(expected) bytes of the buffer on a match", okc, site(cons[0], CON) if cons else site(ge, CON),
+              key="C12.R4:_get_expected:consume",
+              what="after the relay reply / prologue is recognised, bytes that arrived in the same segment (the handshake frame) are discarded or kept twice")
     def diverge(t):
         neg = False
         while isinstance(t, ast.UnaryOp) and isinstance(t.op, ast.Not):
